@@ -12,17 +12,27 @@ import (
 func (e *Engine) registerIntrinsics() {
 	byName := map[string]intrinsicFn{
 		// sync
-		"(*sync.Mutex).Lock":      intrMutexLock,
-		"(*sync.Mutex).Unlock":    intrMutexUnlock,
-		"(*sync.Mutex).TryLock":   intrMutexTryLock,
-		"(*sync.RWMutex).Lock":    intrRWLock,
-		"(*sync.RWMutex).Unlock":  intrRWUnlock,
-		"(*sync.RWMutex).RLock":   intrRWRLock,
-		"(*sync.RWMutex).RUnlock": intrRWRUnlock,
-		"(*sync.WaitGroup).Add":   intrWGAdd,
-		"(*sync.Once).Do":         intrOnceDo,
-		"(*sync.WaitGroup).Done":  intrWGDone,
-		"(*sync.WaitGroup).Wait":  intrWGWait,
+		"(*sync.Mutex).Lock":           intrMutexLock,
+		"(*sync.Mutex).Unlock":         intrMutexUnlock,
+		"(*sync.Mutex).TryLock":        intrMutexTryLock,
+		"(*sync.RWMutex).Lock":         intrRWLock,
+		"(*sync.RWMutex).Unlock":       intrRWUnlock,
+		"(*sync.RWMutex).RLock":        intrRWRLock,
+		"(*sync.RWMutex).RUnlock":      intrRWRUnlock,
+		"(*sync.WaitGroup).Add":        intrWGAdd,
+		"(*sync.Once).Do":              intrOnceDo,
+		"(*sync.Map).Load":             intrSyncMapLoad,
+		"(*sync.Map).Store":            intrSyncMapStore,
+		"(*sync.Map).LoadOrStore":      intrSyncMapLoadOrStore,
+		"(*sync.Map).LoadAndDelete":    intrSyncMapLoadAndDelete,
+		"(*sync.Map).Delete":           intrSyncMapDelete,
+		"(*sync.Map).Range":            intrSyncMapUnsupported,
+		"(*sync.Map).Swap":             intrSyncMapUnsupported,
+		"(*sync.Map).CompareAndSwap":   intrSyncMapUnsupported,
+		"(*sync.Map).CompareAndDelete": intrSyncMapUnsupported,
+		"(*sync.Map).Clear":            intrSyncMapUnsupported,
+		"(*sync.WaitGroup).Done":       intrWGDone,
+		"(*sync.WaitGroup).Wait":       intrWGWait,
 		// atomics
 		"sync/atomic.LoadInt32":             intrAtomicLoad,
 		"sync/atomic.LoadInt64":             intrAtomicLoad,
